@@ -95,8 +95,9 @@ attrspec(struct attr *a, enum attrkind allowed)
 {
 	if (tok.kind != TLBRACK || !peek(TLBRACK))
 		return false;
-	while (parseattr(a, allowed, 0) || consume(TCOMMA))
-		;
+	parseattr(a, allowed, 0);
+	while (consume(TCOMMA))
+		parseattr(a, allowed, 0);
 	expect(TRBRACK, "to end attribute specifier");
 	expect(TRBRACK, "to end attribute specifier");
 	return true;
@@ -119,8 +120,9 @@ gnuattrspec(struct attr *a, enum attrkind allowed)
 		return false;
 	expect(TLPAREN, "after '__attribute__' to begin attribute specifier");
 	expect(TLPAREN, "after '__attribute__' to begin attribute specifier");
-	while (parseattr(a, allowed, PREFIXGNU) || consume(TCOMMA))
-		;
+	parseattr(a, allowed, PREFIXGNU);
+	while (consume(TCOMMA))
+		parseattr(a, allowed, PREFIXGNU);
 	expect(TRPAREN, "to end attribute specifier");
 	expect(TRPAREN, "to end attribute specifier");
 	return true;
